@@ -23,7 +23,21 @@ def main():
         except ImportError:
             na.append({"property_id": pid, "reason": "check not built yet (in progress); see DESIGN.md section 3 for the plan"})
             continue
-        m = getattr(mod, "MANIFEST", {})
+        m = dict(getattr(mod, "MANIFEST", {}))
+        # per-property assumptions / gaps, taken from the evidence the check itself wrote on its last run in /verif
+        try:
+            ev = json.load(open(os.path.join(core.ROOT, "evidence", pid + ".json")))
+            cov = ev["coverage"]
+            gaps = "; ".join(cov.get("outside_claim", [])) or "none recorded"
+            bounds = "; ".join("%s: %s" % (k, v) for k, v in cov.get("bounds", {}).items())
+            m.setdefault("note", NOTE + " BOUNDS for %s: %s. NOT DECIDED (outside the claim): %s. Check-specific assumptions: %s"
+                         % (pid, bounds, gaps, "; ".join(ev.get("assumptions", [])) or "none"))
+            fn = cov.get("functions_encoded", [])
+            m.setdefault("text", "Bounded symbolic model checking of the compiled rrtk code (%s): generated Kani harnesses over symbolic inputs, CBMC symbolic execution, "
+                                 "every obligation decided by CaDiCaL or cvc5||z3 for ALL values within the stated bounds; counterexamples are replayed natively before they are reported."
+                         % (", ".join(fn[:4]) + (" ..." if len(fn) > 4 else "")))
+        except (OSError, KeyError, ValueError):
+            pass
         checks.append({
             "property_id": pid,
             "quick_cmd": "./check %s --tier quick" % pid,
